@@ -15,10 +15,16 @@ pub struct Sys {
     pub rows: Vec<(Vec<f64>, f64)>,
 }
 
+thread_local! {
+    /// when set, Sys::poly() stores the matrix column-major
+    pub static FORTRAN: std::cell::Cell<bool> = const { std::cell::Cell::new(false) };
+}
+
 impl Sys {
     pub fn poly(&self) -> Polytope {
+        use ndarray::ShapeBuilder;
         let m = self.rows.len();
-        let mut a = Array2::<f64>::zeros((m, self.n));
+        let mut a = if FORTRAN.with(|f| f.get()) { Array2::<f64>::zeros((m, self.n).f()) } else { Array2::<f64>::zeros((m, self.n)) };
         let mut b = Array1::<f64>::zeros(m);
         for (i, (r, bb)) in self.rows.iter().enumerate() {
             for j in 0..self.n {
@@ -424,7 +430,22 @@ pub fn run(tier: Tier) -> Report {
     let mut rep = Report::new("C10", tier, "exploration");
     let g = grid(tier);
     let objs: Vec<Vec<Vec<f64>>> = vec![objectives(1, &[0.0, 1.0, -1.0]), objectives(2, &[0.0, 1.0, -1.0]), objectives(3, &[0.0, 1.0, -1.0])];
-    let total = par_cases(&g, |_, (s, oi)| check_system(s, &objs[*oi]));
+    let total = par_cases(&g, |i, (s, oi)| {
+        let mut o = check_system(s, &objs[*oi]);
+        // every 3rd system with a matrix of at least 2x2 once more with column-major storage
+        if s.n >= 2 && s.rows.len() >= 2 && i % 3 == 0 {
+            FORTRAN.with(|f| f.set(true));
+            let mut o2 = check_system(s, &objs[*oi]);
+            FORTRAN.with(|f| f.set(false));
+            for v in o2.violations.iter_mut() {
+                v.tags.insert("storage".into(), "column_major".into());
+            }
+            o2.vcount = o2.vcount.into_iter().map(|(k, c)| (format!("{k}+cm"), c)).collect();
+            o.add("systems_column_major", 1);
+            o.merge(o2);
+        }
+        o
+    });
     rep.set("systems_total", g.len() as u64);
     if let Some((s, _)) = g.get(g.len() / 2) {
         rep.samples.push(json!({"n": s.n, "rows_A_b": s.rows, "objectives": objs[s.n - 1]}));
